@@ -322,7 +322,7 @@ func runC06(c *Ctx) {
 				return true
 			}
 			hob := ginfo.ObjectOf(hi)
-			fromAST := false
+			fromAST, clamped := false, false
 			var guard *ast.IfStmt
 			ast.Inspect(fd.Body, func(y ast.Node) bool {
 				switch y := y.(type) {
@@ -330,6 +330,20 @@ func runC06(c *Ctx) {
 					for i, l := range y.Lhs {
 						if id, ok := l.(*ast.Ident); ok && ginfo.ObjectOf(id) == hob && i < len(y.Rhs) && strings.Contains(types.ExprString(y.Rhs[i]), ".End()") {
 							fromAST = true
+						}
+						// the clamp written with the builtin: to = min(to, limit)
+						if id, ok := l.(*ast.Ident); ok && ginfo.ObjectOf(id) == hob && len(y.Lhs) == len(y.Rhs) && y.End() < sl.Pos() {
+							if call, ok := ast.Unparen(y.Rhs[i]).(*ast.CallExpr); ok && len(call.Args) >= 2 {
+								if fid, ok := call.Fun.(*ast.Ident); ok && fid.Name == "min" {
+									if _, isBuiltin := ginfo.Uses[fid].(*types.Builtin); isBuiltin {
+										for _, a := range call.Args {
+											if aid, ok := ast.Unparen(a).(*ast.Ident); ok && ginfo.ObjectOf(aid) == hob {
+												clamped = true
+											}
+										}
+									}
+								}
+							}
 						}
 					}
 				case *ast.IfStmt:
@@ -343,7 +357,7 @@ func runC06(c *Ctx) {
 			if !fromAST {
 				return true
 			}
-			c.check(guard != nil, "C06.R3", funcKey(gp, fd)+"|slice-bound-guarded:"+hi.Name, c.pos(sl.Pos()), "the bound taken from a go/ast End() is tested (rejected or clamped) before slicing",
+			c.check(guard != nil || clamped, "C06.R3", funcKey(gp, fd)+"|slice-bound-guarded:"+hi.Name, c.pos(sl.Pos()), "the bound taken from a go/ast End() is tested (rejected or clamped) before slicing",
 				fd.Name.Name+" slices the source at a go/ast End() position without a preceding bound test that rejects or clamps it")
 			return true
 		})
@@ -527,13 +541,29 @@ func checkNameRanges(c *Ctx, info *types.Info, body *ast.BlockStmt, where string
 				// … or the start is the position taken in the statement just before the name parser ran
 				takenBefore := false
 				if id, isID := ast.Unparen(call.Args[0]).(*ast.Ident); isID && i >= 2 {
-					if das, ok := list[i-2].(*ast.AssignStmt); ok && len(das.Lhs) == 1 && len(das.Rhs) == 1 {
-						if lid, ok := das.Lhs[0].(*ast.Ident); ok && info.ObjectOf(lid) == info.ObjectOf(id) && info.ObjectOf(id) != nil {
-							if pc, ok := ast.Unparen(das.Rhs[0]).(*ast.CallExpr); ok && len(pc.Args) == 0 {
-								if pf := calleeOf(info, pc); pf != nil && fullName(pf) == "github.com/a-h/parse.(Input).Position" {
-									takenBefore = true
+					// (statements in between that call nothing cannot move the input: l := nameStart.Line)
+					for k := i - 2; k >= 0; k-- {
+						if das, ok := list[k].(*ast.AssignStmt); ok && len(das.Lhs) == 1 && len(das.Rhs) == 1 {
+							if lid, ok := das.Lhs[0].(*ast.Ident); ok && info.ObjectOf(lid) == info.ObjectOf(id) && info.ObjectOf(id) != nil {
+								if pc, ok := ast.Unparen(das.Rhs[0]).(*ast.CallExpr); ok && len(pc.Args) == 0 {
+									if pf := calleeOf(info, pc); pf != nil && fullName(pf) == "github.com/a-h/parse.(Input).Position" {
+										takenBefore = true
+									}
+								}
+								break
+							}
+						}
+						calls := false
+						ast.Inspect(list[k], func(m ast.Node) bool {
+							if ce, ok := m.(*ast.CallExpr); ok {
+								if tv, isConv := info.Types[ce.Fun]; !isConv || !tv.IsType() {
+									calls = true
 								}
 							}
+							return true
+						})
+						if calls {
+							break
 						}
 					}
 				}
